@@ -1,7 +1,9 @@
 """C01: decoding arbitrary bytes never touches memory outside the given slice.
 Implementation side: every public decoder + every accessor/iterator/Debug on the result, three
 placements (guard pages / poisoned surroundings), debug and release builds, worker processes."""
+import os
 import pktgen
+import vlib
 from vlib import hx
 
 ID = "C01"
@@ -21,7 +23,16 @@ ASSUMPTIONS = ["Rust-level undefined behaviour that does not show as an out-of-w
                "abort or a placement-dependent result (aliasing, provenance, MaybeUninit reads in ArpPacket) is outside "
                "the executable model and only exercised, not decided",
                "the Coq theorems of this check cover the model of the strict slicing path (no failing unchecked "
-               "primitive) and the accessor/iterator models listed in evidence; lax and struct decoders: C05/C04"]
+               "primitive) and the accessor / to_header / to_packet / extension-iterator models of Parse/Access.v for "
+               "all strict slice types (C01_accessors_no_oob, C01_windows_inside, C01_single_layer_accessors, "
+               "C01_exts_iter_items; C02_accessors_total, C02_*_unwrap, C02_exts_iter_bounded); lax and struct "
+               "decoders: C05/C04; TCP options iterator: C13",
+               "the accessor models are hand transliterations; their returned windows are compared with the crate on "
+               "every case for the 4 strict whole-packet entry points (c01acc), their VALUES (field decoding) are "
+               "not compared here (field layout is the subject of C08); not modelled: IpSlice::to_header's expect "
+               "(Ipv6Extensions::from_slice on the validated chain), Debug/Display formatting, checksum "
+               "calculators beyond their checked sub-slicing, Icmpv6Slice::payload_slice (NDP), "
+               "LaxSlice/struct-decoder accessors"]
 KINDS = ("PANIC", "CRASH", "OUTSIDE", "DIFF", "HANG", "NOT-RUN")
 ORACLE_KINDS = ("CRASH", "OUTSIDE", "DIFF", "HANG")      # C02 overrides
 
@@ -59,6 +70,36 @@ def gen_cases(rng, tier):
     return cases
 
 
+def acc_windows_compare(ctx, cases):
+    """extra correspondence (C01 only): every sub-slice stored in a strict whole-packet result or returned by an
+    accessor of one of its components -- the window list of the Coq accessor model (Parse/Access.v,
+    SlicedPacketA.windows, extracted by ExtC01.v into ocaml/run_c01acc) against the crate (harness bin c01acc);
+    the model line also says BUG when any accessor run of the model hits Bug"""
+    ok, out = vlib.ocaml_build("ExtC01.v", "m_c01", "run_c01acc")
+    if not ok:
+        return [(0, "c01acc: extraction / model runner build failed: " + out[-400:])], {}
+    ok, out, exe = vlib.harness_build("c01acc", "debug")
+    if not ok:
+        return [(0, "c01acc: harness build failed: " + out[-400:])], {}
+    ets = ["et:2048", "et:34525", "et:33024", "et:35045", "et:2054", "et:34984", "et:37120"]
+    lines, idx = [], []
+    for i, c in enumerate(cases):
+        for e in ("eth", "sll", "ip", ets[i % len(ets)]):
+            lines.append(e + " " + c)
+            idx.append(i)
+    m = vlib.run_sharded([os.path.join(vlib.OCAML, "bin", "run_c01acc")], lines, "C01acc_m")
+    r = vlib.run_sharded([exe], lines, "C01acc_i")
+    mism, okc, wins = [], 0, 0
+    for k, (a, b) in enumerate(zip(m, r)):
+        if a != b:
+            mism.append((idx[k], "accessor windows differ for `%s`: model `%s` / crate `%s`" % (lines[k][:120], a[:300], b[:300])))
+        elif a.startswith("ok"):
+            okc += 1
+            wins += a.count("+")
+    return mism, {"accessor_window_runs": len(lines), "accessor_window_runs_accepted": okc,
+                  "accessor_windows_equal": wins}
+
+
 def compare(ctx, cases, impl, model_lines, oracle_kinds=None):
     oracle_kinds = oracle_kinds or ORACLE_KINDS
     orc = []
@@ -87,7 +128,14 @@ def compare(ctx, cases, impl, model_lines, oracle_kinds=None):
                     orc.append((i, "debug and release builds render different results (%s vs %s)" % (first["h"], f["h"]), None))
             elif kind in oracle_kinds or kind in ("EMPTY", "NOT-RUN"):
                 orc.append((i, "%s: %s" % (prof, il[:400]), None))
-    return {"corr_mismatch": [], "oracle_fail": orc, "hist": hist, "nontrivial": nontriv,
-            "samples": [cases[2], cases[len(cases) // 2]],
-            "extra": {"sub_slices_checked": subs, "iterator_items": items,
-                      "model_side": "none in this check (accessor windows are compared in C03; this check is the runtime witness)"}}
+    extra = {"sub_slices_checked": subs, "iterator_items": items}
+    mism = []
+    if ctx.pid == "C01":
+        mism, ex2 = acc_windows_compare(ctx, cases)
+        extra.update(ex2)
+        extra["model_side"] = ("accessor model Parse/Access.v: window list of every strict whole-packet result "
+                               "(4 entry points) compared with the crate (c01acc); all other decoders: runtime witness only")
+    else:
+        extra["model_side"] = "none in this check (accessor windows are compared in C01/C03; this check is the runtime witness)"
+    return {"corr_mismatch": mism, "oracle_fail": orc, "hist": hist, "nontrivial": nontriv,
+            "samples": [cases[2], cases[len(cases) // 2]], "extra": extra}
